@@ -133,6 +133,15 @@ def gen(tier, rng):
                 yield segcase(base, c), {"kind": "upgrade-cut", "family": "upgrade"}
         for segs, kind in splits_for(rng, stream, tier)[-4:]:
             yield segcase(base, segs), {"kind": kind, "family": "upgrade"}
+    # one long pause (longer than any plausible built-in time-out) between two segments: inside a request line, between
+    # two requests, inside a streamed body
+    for i, (stream, cutpos) in enumerate([
+            (b"GET /slow1 HTTP/1.1\r\nHost: h\r\n\r\nGET /slow2 HTTP/1.1\r\nHost: h\r\n\r\n", 38),
+            (b"GET /slow3 HTTP/1.1\r\nHost: h\r\n\r\nGET /slow4 HTTP/1.1\r\nHost: h\r\n\r\n", 33)] +
+            ([(b"POST /slow5 HTTP/1.1\r\nHost: h\r\nContent-Length: 2000\r\n\r\n" + b"b" * 2000, 500)] if tier != "quick" else [])):
+        base = cv_line(stream, [action_str([(None, 4096)], respond_str(200, b"ok", True))] * 2)
+        yield base, {"kind": "unsplit", "family": "long-pause"}
+        yield base + " seg=%d gap=5600 limit=12000" % cutpos, {"kind": "long-pause", "family": "long-pause"}
     # TCP sample
     for i in range(nb, nb + 6):
         stream, acts = base_conv(rng, i)
